@@ -28,6 +28,13 @@ REPO = Path(os.environ.get("Y0_REPO", "/repo"))
 PY = "/venv/bin/python"
 JAR = "/opt/veriftools/tla/tla2tools.jar:/opt/veriftools/tla/CommunityModules-deps.jar"
 NCPU = min(16, os.cpu_count() or 4)
+NSHARDS = 16   # number of driver shards: fixed, so that what a shard contains does not depend on the machine
+
+
+def shard_hashseed(i: int) -> str:
+    """PYTHONHASHSEED of the i-th driver shard: the implementation is exercised under four set-iteration orders
+    (0-3); which inputs meet which order is deterministic because the sharding is."""
+    return str(i % 4)
 
 
 class MachineryError(RuntimeError):
@@ -41,9 +48,31 @@ def seed() -> int:
         return 0
 
 
-def spec_hash(*names: str) -> str:
+_MODREF = re.compile(r"^\s*(?:EXTENDS|LOCAL\s+INSTANCE|INSTANCE)\s+(.*)$", re.M)
+_INSTANCE_IN = re.compile(r"==\s*INSTANCE\s+(\w+)")
+
+
+def spec_closure(module: str) -> list[Path]:
+    """The spec files a module depends on: its EXTENDS / INSTANCE closure within spec/ (standard modules are not files)."""
+    seen: dict[str, Path] = {}
+    todo = [module.removesuffix(".tla")]
+    while todo:
+        m = todo.pop()
+        f = SPEC / f"{m}.tla"
+        if m in seen or not f.exists():
+            continue
+        seen[m] = f
+        text = f.read_text()
+        for line in _MODREF.findall(text):
+            todo += [w.strip() for w in line.split("WITH")[0].split(",") if w.strip()]
+        todo += _INSTANCE_IN.findall(text)
+    return [seen[k] for k in sorted(seen)]
+
+
+def spec_hash(*names: str, module: str | None = None) -> str:
     h = hashlib.sha256()
-    files = sorted(SPEC.glob("*.tla")) + sorted(SPEC.glob("*.cfg"))
+    files = (spec_closure(module) + sorted(SPEC.glob(f"{module.removesuffix('.tla')}_*.cfg")) if module
+             else sorted(SPEC.glob("*.tla")) + sorted(SPEC.glob("*.cfg")))
     for f in files:
         h.update(f.name.encode())
         h.update(f.read_bytes())
@@ -52,10 +81,11 @@ def spec_hash(*names: str) -> str:
     return h.hexdigest()[:16]
 
 
-def cached(name: str, fn):
-    """Cache a JSON-able value that depends only on the spec files (keyed by their hash)."""
+def cached(name: str, fn, module: str | None = None):
+    """Cache a JSON-able value that depends only on the spec (keyed by the hash of the module's EXTENDS closure, or of
+    every spec file when no module is named)."""
     CACHE.mkdir(exist_ok=True)
-    f = CACHE / f"{name}-{spec_hash(name)}.json"
+    f = CACHE / f"{name}-{spec_hash(name, module=module)}.json"
     if f.exists():
         return json.loads(f.read_text()), True
     val = fn()
